@@ -987,6 +987,114 @@ fn refusal_case(ctx: &mut Ctx, i: usize) {
     ctx.rep.case(&format!("pst13 refusal {} nv={} D={} s={}", what, nv, d, s), None);
 }
 
+/// Boundary probe (correspondence only, no expectation attached): a polynomial whose declared
+/// `num_vars` is smaller than the key's.  `open` then returns `p.num_vars()` witnesses and, with
+/// hiding, silently drops the hiding witnesses of the remaining variables; the model follows the
+/// code (`nvp < nvr`).  The decisions are compared with the model and recorded as a note.
+fn fewer_vars_probe(ctx: &mut Ctx, i: usize) {
+    let id = format!("C15/pst13-fewer-vars/{}", i);
+    let mut rng = rng_for(ctx.seed, "C15/pst13-fewer-vars", i as u64);
+    let nv = range(&mut rng, 2, 3);
+    let nvp = range(&mut rng, 0, nv - 1);
+    let d = range(&mut rng, 1, 3);
+    let s = d;
+    let trap = Trap::random(&mut rng, nv, d);
+    let pp = trap.params();
+    let (ck, vk): (CK, VK) = match guarded(|| PC::trim(&pp, s, 0, None)) {
+        Ok(Ok(x)) => x,
+        _ => return,
+    };
+    let p = if nvp == 0 {
+        <MvPoly as Zero>::zero()
+    } else {
+        let (q, _) = gen_poly(&mut rng, nvp, s);
+        MvPoly::from_coefficients_vec(nvp, q.terms().to_vec())
+    };
+    let hb = if i % 2 == 0 { Some(range(&mut rng, 1, s)) } else { None };
+    let lp = LabeledPolynomial::new("p".to_string(), p.clone(), None, hb);
+    let (comms, states): (Vec<LabeledCommitment<Comm>>, Vec<Rand>) =
+        match guarded(|| PC::commit(&ck, [&lp], Some(&mut rng))) {
+            Ok(Ok(x)) => x,
+            _ => return,
+        };
+    let z: Vec<Fr> = (0..nv).map(|_| Fr::rand(&mut rng)).collect();
+    let mut sponge = fresh();
+    sponge.absorb_seed(1000 + i as u64);
+    let vsponge = sponge.clone();
+    let out = guarded(|| PC::open(&ck, [&lp], comms.iter(), &z, &mut sponge, states.iter(), None));
+    let xis = sponge.challenges();
+    let blind = states[0].blinding_polynomial.clone();
+    let req = trap
+        .key_args(Req::new("c15.open"), s)
+        .arg("nvp", wire::nat(p.num_vars()))
+        .arg("nvr", wire::nat(blind.num_vars()))
+        .arg("ps", polys_val(&[p.clone()]))
+        .arg("z", wire::fes(&z))
+        .arg("rs", polys_val(&[blind.clone()]))
+        .arg("xis", wire::fes(&xis));
+    let proof = match out {
+        Ok(Ok(pr)) => {
+            ctx.ses.ask(
+                &format!("{}/open", id),
+                req,
+                ImplOutcome::Ok(vec![
+                    ("w".into(), Expect::G1s(pr.w.clone())),
+                    ("rv".into(), Expect::OptFe(pr.random_v)),
+                ]),
+            );
+            pr
+        }
+        Ok(Err(e)) => {
+            ctx.ses.ask(&format!("{}/open", id), req, ImplOutcome::Refuse(err_kind(&e)));
+            return;
+        }
+        Err(a) => {
+            ctx.ses.ask(&format!("{}/open", id), req, ImplOutcome::Refuse(a));
+            return;
+        }
+    };
+    let v = p.evaluate(&z);
+    let (o, vx) = check_impl(&vk, &comms, &z, &[v], &proof, &vsponge);
+    let cs = trap.g * p.evaluate(&trap.betas) + trap.gamma * blind.evaluate(&trap.betas);
+    let mut ws = vec![];
+    let mut ok = xis.len() == 1 && g1(cs) == comms[0].commitment().comm.0;
+    if ok {
+        for k in 0..proof.w.len() {
+            match (quotient_at(&p, &z, &trap.betas, k), quotient_at(&blind, &z, &trap.betas, k)) {
+                (Some(a), Some(b)) => ws.push(xis[0] * (trap.g * a + trap.gamma * b)),
+                _ => ok = false,
+            }
+        }
+        ok = ok && ws.iter().zip(proof.w.iter()).all(|(s, w)| g1(*s) == *w);
+    }
+    if ok {
+        ctx.ses.ask(
+            &format!("{}/check", id),
+            trap.key_args(Req::new("c15.check"), s)
+                .arg("cs", wire::fes(&[cs]))
+                .arg("z", wire::fes(&z))
+                .arg("vs", wire::fes(&[v]))
+                .arg("w", wire::fes(&ws))
+                .arg("rv", wire::opt_fe(&proof.random_v))
+                .arg("xis", wire::fes(&vx)),
+            o.clone(),
+        );
+    }
+    let key = format!(
+        "fewer-vars/hiding-{}/{}",
+        hb.is_some(),
+        if accepted(&o) { "accepted" } else { "not-accepted" }
+    );
+    ctx.rep.count(&key);
+    if !accepted(&o) {
+        let note = "boundary (not counted as a violation): a polynomial declared with fewer variables than the key, committed with hiding, opens to a proof its own verifier rejects (hiding witnesses of the undeclared variables are dropped); model agrees".to_string();
+        if !ctx.rep.notes.contains(&note) {
+            ctx.rep.notes.push(note);
+        }
+    }
+    ctx.rep.case(&format!("pst13 fewer-vars nv={} declared={} hiding={:?}", nv, p.num_vars(), hb), None);
+}
+
 pub fn run(ctx: &mut Ctx) {
     run_combinations(ctx);
     run_setup(ctx);
@@ -1003,4 +1111,9 @@ pub fn run(ctx: &mut Ctx) {
         refusal_case(ctx, i);
     }
     ctx.flush_model("C15-pst13-refuse");
+    let np = ctx.n(12, 60);
+    for i in 0..np {
+        fewer_vars_probe(ctx, i);
+    }
+    ctx.flush_model("C15-pst13-fewer-vars");
 }
